@@ -12,10 +12,18 @@
                            wide/tall toom42 chunks with the recursive last chunk), every add-back and mpn_add_n exact (no carry lost)
     mp_pairs_spec          the row form `mpW` used above IS the header's sum over index pairs (i, j), n-1 ≤ i+j ≤ m-1
     mulmid_pairs_spec      mpn_mulmid on operands of exactly an and bn limbs against the pair sum directly
-  Not covered (run only): mpn_toom42_mulmid itself (it enters by its specification, hypothesis `TmSpec`; `tmSpec_ok` shows the
-  stand-in used by the driver meets it), mpn_mulhigh_n.
+    toom42_odd_fixup_partial   mpn_toom42_mulmid (model Mpir/Model/MulMidToom.lean, op mm_toom42): the odd row and diagonal step
+                           (toom42_mulmid.c:208-232) turns MP of the even sub-problem into MP({ap,2n-1},{bp,n}) exactly
+    toom42_mulmid_spec_partial the model of mpn_toom42_mulmid meets `TmSpec T` (so mulmid_n_spec / mulmid_spec apply to the real callee)
+                           for every n ≥ T ≥ 4 PROVIDED its even core is correct (`EvenCore`): recursion, threshold dispatch,
+                           `ap += n & 1`, odd row and diagonal are proved; the core is the one thing missing
+  Not covered (run only, op mm_toom42 compares all n+2 limbs): the even core of mpn_toom42_mulmid — transposed interpolation with the
+  correction terms e0..e5 of add_err1_n/add_err2_n/sub_err2_n, the neg flag, the in-place corrections and the transposed
+  evaluation (`toomFix`); so `TmSpec` of the toom42 model is NOT proved and `mulmid_n_spec` / `mulmid_spec` keep it as a hypothesis
+  (`tmSpec_ok` shows it is satisfiable).  mpn_mulhigh_n.
 -/
 import MpirProofs.Lemmas.MulMid
+import MpirProofs.Lemmas.MulMidToom
 namespace Mpir.MulMid
 open Mpir
 
@@ -43,7 +51,7 @@ example : val (mulmid_basecase [B - 1, B - 1, B - 1] 3 [B - 1, B - 1]) = mpW 2 [
 
 /-- mpn_mulmid_n (mulmid_n.c:45-72): for every n ≥ 1 (the C's ASSERT), every threshold T = MULMID_TOOM42_THRESHOLD and every
     function `tm` that meets the specification of mpn_toom42_mulmid, the n + 2 output limbs are MP({ap, 2n-1}, {bp, n}) exactly. -/
-theorem mulmid_n_spec (T : Nat) (tm : List Nat → List Nat → Nat → List Nat) (htm : TmSpec tm)
+theorem mulmid_n_spec (T : Nat) (tm : List Nat → List Nat → Nat → List Nat) (htm : TmSpec T tm)
     (a b : List Nat) (n : Nat) (ha : Limbs a) (hb : Limbs b) (hn : 1 ≤ n) (hbl : b.length = n) (hal : 2 * n - 1 ≤ a.length)
     (hB : n ≤ B) :
     val (mulmid_n T tm a b n) = mpW n a b ∧ Limbs (mulmid_n T tm a b n) ∧ (mulmid_n T tm a b n).length = n + 2 := by
@@ -53,7 +61,7 @@ theorem mulmid_n_spec (T : Nat) (tm : List Nat → List Nat → Nat → List Nat
     have e : 2 * n - 1 - b.length + 1 = n := by omega
     rw [e] at h1
     exact ⟨h1, h2, by rw [h3]; omega⟩
-  · exact htm a b n ha hb hbl hn hB hal
+  · exact htm a b n ha hb hbl hn (by omega) hB hal
 
 example : mulmid_n 5 tmSpec [1, 2, B - 1] [B - 1, 3] 2 = mulmid_n 0 tmSpec [1, 2, B - 1] [B - 1, 3] 2 := by decide +kernel
 
@@ -63,7 +71,7 @@ example : mulmid_n 5 tmSpec [1, 2, B - 1] [B - 1, 3] 2 = mulmid_n 0 tmSpec [1, 2
     (k = CHUNK - bn + 1 diagonals each, two saved limbs added back by ADDC_LIMB / MPN_INCR_U — the increment t1 + cy does not
     wrap and MPN_INCR_U does not run off the region), the tall basecase chunks (mpn_add_n of rn + 2 limbs, carry 0), and the
     two toom42 regions including the recursive call on the last chunk.  `fuel` ≥ an bounds that recursion (the driver passes an). -/
-theorem mulmid_spec (T : Nat) (tm : List Nat → List Nat → Nat → List Nat) (htm : TmSpec tm)
+theorem mulmid_spec (T : Nat) (tm : List Nat → List Nat → Nat → List Nat) (htm : TmSpec T tm)
     (fuel : Nat) (a : List Nat) (an : Nat) (b : List Nat) (ha : Limbs a) (hb : Limbs b)
     (hbn : 1 ≤ b.length) (han : b.length ≤ an) (hal : an ≤ a.length) (hB : b.length < B) (hfuel : an ≤ fuel) :
     val (mulmid T tm fuel a an b) = mpW (an - b.length + 1) a b ∧
@@ -73,7 +81,7 @@ theorem mulmid_spec (T : Nat) (tm : List Nat → List Nat → Nat → List Nat) 
 
 -- non-vacuity: the hypothesis on tm is satisfiable (by the stand-in the driver uses); a toom42 region with a recursive last
 -- chunk at T = 1 (bn = 2 ≤ rn = 3: one toom42 chunk of 2 diagonals, last chunk of 1 diagonal by mpn_mulmid, add-back)
-example : TmSpec tmSpec := tmSpec_ok
+example : TmSpec 36 tmSpec := tmSpec_ok 36
 example : mulmid 1 tmSpec 4 [B - 1, B - 1, B - 1, B - 1] 4 [B - 1, B - 1] = [2, B - 2, B - 1, B - 3, 1] := by decide +kernel
 example : val (mulmid 1 tmSpec 4 [B - 1, B - 1, B - 1, B - 1] 4 [B - 1, B - 1]) = mpPairs [B - 1, B - 1, B - 1, B - 1] [B - 1, B - 1] := by
   decide +kernel
@@ -88,7 +96,7 @@ example : mpPairs [1, 2, 3, 4] [5, 6] = 5 * 2 + 6 * 1 + (5 * 3 + 6 * 2) * B + (5
 
 /-- mpn_mulmid against the pair sum: operands of exactly an = |a| and bn = |b| limbs, an ≥ bn ≥ 1, bn < B:
     {rp, an-bn+3} = Σ_{bn-1 ≤ i+j ≤ an-1} a_i b_j B^(i+j-bn+1), exactly. -/
-theorem mulmid_pairs_spec (T : Nat) (tm : List Nat → List Nat → Nat → List Nat) (htm : TmSpec tm)
+theorem mulmid_pairs_spec (T : Nat) (tm : List Nat → List Nat → Nat → List Nat) (htm : TmSpec T tm)
     (a b : List Nat) (ha : Limbs a) (hb : Limbs b) (hbn : 1 ≤ b.length) (han : b.length ≤ a.length) (hB : b.length < B) :
     val (mulmid T tm a.length a a.length b) = mpPairs a b ∧
     Limbs (mulmid T tm a.length a a.length b) ∧ (mulmid T tm a.length a a.length b).length = a.length - b.length + 3 := by
@@ -96,7 +104,43 @@ theorem mulmid_pairs_spec (T : Nat) (tm : List Nat → List Nat → Nat → List
   exact mulmid_spec T tm htm a.length a a.length b ha hb hbn han (le_refl _) hB (le_refl _)
 
 example : val (mulmid 1 tmSpec 4 [B - 1, B - 1, B - 1, B - 1] 4 [B - 1, B - 1]) = mpPairs [B - 1, B - 1, B - 1, B - 1] [B - 1, B - 1] :=
-  (mulmid_pairs_spec 1 tmSpec tmSpec_ok [B - 1, B - 1, B - 1, B - 1] [B - 1, B - 1] (by decide) (by decide) (by decide) (by decide)
+  (mulmid_pairs_spec 1 tmSpec (tmSpec_ok 1) [B - 1, B - 1, B - 1, B - 1] [B - 1, B - 1] (by decide) (by decide) (by decide) (by decide)
     (by decide)).1
+
+/-- FULL STATEMENT (not proved): `TmSpec (fun a b n => toom42 T n a b n)` for every n ≥ 4 (the C's ASSERT) and T ≥ 4.
+    PROVED PART — the odd row and diagonal of mpn_toom42_mulmid (toom42_mulmid.c:208-232, `toomOdd`): for n ≥ 2 (odd n ≥ 5 in the C),
+    if R = {rp, n+1} holds the cells already done, MP({ap+1, 2n-3}, {bp, n-1}) (the even sub-problem on the advanced ap and the low
+    n-1 limbs of b), then after `cy = mpn_addmul_1 (rp, ap-1, n, bp[n-1]); ADDC_LIMB (rp[n+1], rp[n], rp[n], cy);
+    mpn_mulmid_basecase (e, ap+n-1, n-1, bp, n-1); mpn_add_n (rp+n-1, rp+n-1, e, 3)` the n+2 limbs are MP({ap,2n-1},{bp,n})
+    exactly (the ADDC and the 3-limb add lose no carry).  MISSING: the even core (interpolation, e0..e5 corrections, neg,
+    evaluation) computing MP for n = 2m from the three half-size middle products. -/
+theorem toom42_odd_fixup_partial (a b R : List Nat) (n : Nat) (ha : Limbs a) (hb : Limbs b) (hbl : b.length = n) (hn : 2 ≤ n)
+    (hnB : n ≤ B) (hal : 2 * n - 1 ≤ a.length)
+    (hR : val R = mpW (n - 1) (a.drop 1) (b.take (n - 1)) ∧ Limbs R ∧ R.length = n + 1) :
+    val (toomOdd a b n R) = mpW n a b ∧ Limbs (toomOdd a b n R) ∧ (toomOdd a b n R).length = n + 2 := by
+  obtain ⟨k, rfl⟩ : ∃ k, n = k + 1 := ⟨n - 1, by omega⟩
+  simp only [Nat.add_sub_cancel] at hR
+  exact toomOdd_isMP a b R k ha hb hbl (by omega) hnB hal hR
+
+/-- FULL STATEMENT (not proved): `TmSpec T (fun a b n => toom42 T n a b n)` for T ≥ 4.
+    PROVED: it follows from `EvenCore` alone — the statement that the even core `toomEven` (toom42_mulmid.c:66-205: transposed
+    interpolation by add_err1_n / add_err2_n / sub_err2_n with the correction terms e0..e5, the neg flag, the three half-size middle
+    products by a correct `recf`, the corrections applied in place, the sign adjustment and the transposed evaluation) returns
+    {rp, 2m+2} = MP({ap, 4m-1}, {bp, 2m}) for m ≥ 2.  Proved here around it: the recursion on n / 2 (ASSERT (n >= 4) holds for the
+    recursive calls because T ≥ 4), the threshold dispatch to mpn_mulmid_basecase, `ap += n & 1`, and the odd row and diagonal.
+    MISSING: a proof of `EvenCore` (it is run against the library by op mm_toom42, every limb, n = 4..40 and recursive sizes).
+    With it, `mulmid_n_spec` and `mulmid_spec` hold for the modelled callee instead of the stand-in `tmSpec`. -/
+theorem toom42_mulmid_spec_partial (hcore : EvenCore) (T : Nat) (hT : 4 ≤ T) : TmSpec T (fun a b n => toom42 T n a b n) := by
+  intro a b n ha hb hbl hn hTn hnB hal
+  exact toom42_of_core hcore T hT n a b n ha hb hbl (by omega) hnB hal (le_refl _)
+
+-- non-vacuity: n = 3 on all-ones operands, R computed by the basecase for the even sub-problem; and the whole model at n = 5, 4
+example : toomOdd [B - 1, B - 1, B - 1, B - 1, B - 1] [B - 1, B - 1, B - 1] 3
+    (mulmid_basecase [B - 1, B - 1, B - 1, B - 1] 3 [B - 1, B - 1]) = mulmid_basecase [B - 1, B - 1, B - 1, B - 1, B - 1] 5 [B - 1, B - 1, B - 1] := by
+  decide +kernel
+example : toom42 36 5 [1, 2, 3, 4, 5, 6, 7, 8, B - 1] [B - 1, 1, 2, 3, B - 2] 5 =
+    mulmid_basecase [1, 2, 3, 4, 5, 6, 7, 8, B - 1] 9 [B - 1, 1, 2, 3, B - 2] := by decide +kernel
+example : toom42 36 4 [1, 2, 3, B - 4, 5, 6, B - 1] [B - 1, 1, 2, B - 2] 4 =
+    mulmid_basecase [1, 2, 3, B - 4, 5, 6, B - 1] 7 [B - 1, 1, 2, B - 2] := by decide +kernel
 
 end Mpir.MulMid
